@@ -5,7 +5,6 @@ package state
 import (
 	"bytes"
 	"fmt"
-	"os"
 	"sort"
 	"strings"
 	"testing"
@@ -536,22 +535,6 @@ func TestVerifC14Blocks(t *testing.T) {
 			if w.inTx {
 				w.finalise()
 			}
-			if cfg == "path" && vs.Known("TestVerifC14Blocks", "root-returns-to-disk-layer") {
-				// known finding (notes/C14.md): pathdb rejects a transition whose result is the
-				// current disk layer's root. Excluded by construction: perturb the block.
-				diskRoot := types.EmptyRootHash
-				if lastFlushed != (common.Hash{}) {
-					diskRoot = lastFlushed
-				}
-				if common.Hash(w.m.Root()) == diskRoot && diskRoot != root {
-					w.beginTx(true)
-					w.sdb.AddBalance(vAddrs[0], vAmounts[1], tracing.BalanceChangeUnspecified)
-					w.m.AddBalance(ra(vAddrs[0]), vAmounts[1].ToBig())
-					w.logf("AddBalance A0 1 (avoid known finding)")
-					w.finalise()
-					st.Excluded()
-				}
-			}
 			ir := w.intermediateRoot()
 			newRoot, upd, err := w.sdb.CommitWithUpdate(rs.r, uint64(b+1))
 			if err != nil {
@@ -633,30 +616,65 @@ func TestVerifC14Blocks(t *testing.T) {
 	})
 }
 
-// TestVerifC14ReturnToDiskRoot is the minimal history of the suspected defect
-// described in notes/C14.md (path scheme: a block whose post-state root equals the
-// root of the current disk layer cannot be committed). It only reports unless
-// VERIF_C14_REPRO=1, so that the randomized check stays usable.
+// TestVerifC14ReturnToDiskRoot is the minimal history of the defect found by the
+// randomized check and fixed in /repo commit c5f17e5d89 (notes/C14.md): on the path
+// scheme a block whose post-state root equals the root of the current disk layer
+// must commit like any other block, also after an explicit flush (A -> B -> A).
 func TestVerifC14ReturnToDiskRoot(t *testing.T) {
 	vs.OnlyShard0(t)
-	db := vNewDB(rawdb.PathScheme)
-	defer db.Close()
-	rules := vRuleByName("cancun").r
-	s1, _ := New(types.EmptyRootHash, db.sdb)
-	s1.AddBalance(vAddrs[0], vAmounts[1], tracing.BalanceChangeUnspecified)
-	r1, err := s1.Commit(rules, 1)
-	if err != nil {
-		t.Fatalf("VERIF-HARNESS-BUG: block 1 commit: %v", err)
-	}
-	s2, _ := New(r1, db.sdb)
-	s2.SubBalance(vAddrs[0], vAmounts[1], tracing.BalanceChangeUnspecified) // account becomes empty and is removed
-	ir := s2.IntermediateRoot(rules)
-	r2, err := s2.Commit(rules, 2)
-	msg := fmt.Sprintf("block 2: IntermediateRoot=%x (empty root=%v), Commit root=%x err=%v", ir, ir == types.EmptyRootHash, r2, err)
-	t.Log(msg)
-	if err != nil || r2 != ir {
-		if os.Getenv("VERIF_C14_REPRO") == "1" {
-			t.Fatalf("Commit does not return the preceding IntermediateRoot: %s", msg)
+	st := vs.New("C14", t)
+	for _, scheme := range []string{rawdb.PathScheme, rawdb.HashScheme} {
+		for _, flushFirst := range []bool{false, true} {
+			c := st.Case()
+			c.Classf("disk-root-return scheme=%s flushFirst=%v", scheme, flushFirst)
+			c.NonTrivial(true, fmt.Sprintf("%s/%v", scheme, flushFirst))
+			db := vNewDB(scheme)
+			rules := vRuleByName("cancun").r
+			parent := types.EmptyRootHash
+			if flushFirst {
+				// persist a non-empty state A first, so that the disk layer is A
+				s0, _ := New(parent, db.sdb)
+				s0.AddBalance(vAddrs[1], vAmounts[2], tracing.BalanceChangeUnspecified)
+				r0, err := s0.Commit(rules, 1)
+				if err != nil {
+					t.Fatalf("VERIF-HARNESS-BUG: commit of state A: %v", err)
+				}
+				if err := db.tdb.Commit(r0, false); err != nil {
+					t.Fatalf("VERIF-HARNESS-BUG: flush of state A: %v", err)
+				}
+				parent = r0
+			}
+			s1, err := New(parent, db.sdb)
+			if err != nil {
+				t.Fatalf("open %x: %v", parent, err)
+			}
+			s1.AddBalance(vAddrs[0], vAmounts[1], tracing.BalanceChangeUnspecified)
+			r1, err := s1.Commit(rules, 2)
+			if err != nil {
+				t.Fatalf("[%s flushFirst=%v] commit A->B: %v", scheme, flushFirst, err)
+			}
+			s2, err := New(r1, db.sdb)
+			if err != nil {
+				t.Fatalf("open %x: %v", r1, err)
+			}
+			s2.SubBalance(vAddrs[0], vAmounts[1], tracing.BalanceChangeUnspecified) // the account becomes empty and is removed
+			ir := s2.IntermediateRoot(rules)
+			if ir != parent {
+				t.Fatalf("VERIF-HARNESS-BUG: B->A did not return to root %x (got %x)", parent, ir)
+			}
+			r2, err := s2.Commit(rules, 3)
+			if err != nil || r2 != ir {
+				t.Fatalf("[%s flushFirst=%v] committing a block whose post-state root is the disk layer root: Commit=(%x, %v), preceding IntermediateRoot=%x",
+					scheme, flushFirst, r2, err, ir)
+			}
+			s3, err := New(r2, db.sdb)
+			if err != nil {
+				t.Fatalf("[%s flushFirst=%v] reopen at %x: %v", scheme, flushFirst, r2, err)
+			}
+			if s3.Exist(vAddrs[0]) || (flushFirst && s3.GetBalance(vAddrs[1]).Uint64() != 2) {
+				t.Fatalf("[%s flushFirst=%v] state reopened at %x does not read state A", scheme, flushFirst, r2)
+			}
+			db.Close()
 		}
 	}
 }
